@@ -209,20 +209,25 @@ Record seccfg := mkCfg {
   sc_open_split : bool;      (* OpenFile: lookup [R] ... then Create [W] as a separate call *)
   sc_open_setmode : bool;    (* OpenFile: trailing setFileMode (lookup by name) after creating *)
   sc_mkdir_setmode : bool;   (* Mkdir: trailing setFileMode after the write-locked section *)
-  sc_rmall_split : bool      (* RemoveAll: unregister [W], then one [W] section per key *)
+  sc_rmall_split : bool;     (* RemoveAll: unregister [W], then one [W] section per key *)
+  sc_chmod_split : bool;     (* Chmod: [R] lookup + read mode, setFileMode: [R] lookup, [W] set on THAT node *)
+  sc_chtimes_split : bool    (* Chtimes: [R] lookup, [W] set the time on THAT node *)
 }.
 
 Definition ln_cfg_today : seccfg :=
   mkCfg (Z.eqb lin_openfile_split 1) (Z.eqb lin_openfile_setmode 1) (Z.eqb lin_mkdir_setmode 1)
-        (negb (Z.eqb lin_removeall_locks 1)).
-Definition ln_cfg_atomic : seccfg := mkCfg false false false false.
+        (negb (Z.eqb lin_removeall_locks 1)) (negb (Z.eqb lin_chmod_locks 1)) (negb (Z.eqb lin_chtimes_locks 1)).
+Definition ln_cfg_atomic : seccfg := mkCfg false false false false false false.
 
 Inductive lpc :=
 | LnStart
 | LnOpenCreate                                  (* OpenFile: the lookup found nothing; Create is next *)
 | LnMkdirLocked                                 (* Mkdir: the unlocked pre-check found nothing *)
 | LnRmAllLoop                                   (* RemoveAll: unregistered; deleting key by key *)
-| LnSetMode (name : str) (mode : Z) (ok : res). (* trailing setFileMode(name, mode) *)
+| LnSetMode (name : str) (mode : Z) (ok : res)  (* trailing setFileMode(name, mode) *)
+| LnChmodLookup (name : str) (mode : Z)         (* Chmod: mode computed; setFileMode looks the name up *)
+| LnSetNode (f : nat) (mode : Z)                (* setFileMode: write lock taken, set the mode of node f *)
+| LnSetTime (f : nat) (t : Z).                  (* Chtimes: write lock taken, set the time of node f *)
 
 Definition ln_ret (st : lstate) (slot : option nat) (r : res) : lstate * (lpc + res) :=
   ((fst st, lin_bind (snd st) slot r), inr (lin_proj r)).
@@ -300,6 +305,31 @@ Definition ln_sec (k : seccfg) (st : lstate) (c : lop) (pc : lpc) : lstate * (lp
   | LnSetMode name mode ok, _ =>
     let '(m1, r) := set_file_mode m name mode in
     match r with ROk => ln_ret (m1, sl) (fst c) ok | _ => ((m1, sl), inr r) end
+  (* Chmod: the node found under the read lock is the one whose mode is set under the write
+     lock, wherever it is by then; Chtimes likewise *)
+  | LnStart, Chmod p mode0 =>
+    if sc_chmod_split k then
+      match lookup m (normalize_path p) with
+      | None => (st, inr (RErr (EW KNotExist)))
+      | Some f =>
+        let prev := match get_node m f with Some n => Z.land (nmode n) (Z.lnot chmod_bits) | None => 0%Z end in
+        (st, inl (LnChmodLookup p (Z.lor prev (Z.land mode0 chmod_bits))))
+      end
+    else ln_atomic st c
+  | LnChmodLookup name mode, _ =>
+    match lookup m (normalize_path name) with
+    | None => (st, inr (RErr (EW KNotExist)))
+    | Some f => (st, inl (LnSetNode f mode))
+    end
+  | LnSetNode f mode, _ => ((upd_node m f (with_mode mode), sl), inr ROk)
+  | LnStart, Chtimes p t =>
+    if sc_chtimes_split k then
+      match lookup m (normalize_path p) with
+      | None => (st, inr (RErr (EW KNotExist)))
+      | Some f => (st, inl (LnSetTime f t))
+      end
+    else ln_atomic st c
+  | LnSetTime f t, _ => ((upd_node m f (with_mtime t), sl), inr ROk)
   (* every other method: one critical section *)
   | LnStart, _ => ln_atomic st c
   | _, _ => (st, inr RPanic)
@@ -312,6 +342,8 @@ Definition ln_lin_ok (k : seccfg) (o : op) : bool :=
   | OpenFile _ _ _ => negb (sc_open_split k)
   | Mkdir _ _ | MkdirAll _ _ => negb (sc_mkdir_setmode k)
   | RemoveAll _ => negb (sc_rmall_split k)
+  | Chmod _ _ => negb (sc_chmod_split k)
+  | Chtimes _ _ => negb (sc_chtimes_split k)
   | _ => true
   end.
 
